@@ -2,6 +2,7 @@ package main
 
 import (
 	"fmt"
+	"os"
 	"sort"
 	"strings"
 
@@ -243,6 +244,10 @@ func singleEdits(kind string, src []byte, yield func(edit) bool) bool {
 }
 
 func gen(tier string, emit func(engine.Case) bool) {
+	if os.Getenv("C15_ONLY") == "history" { // development aid: only family (c)
+		genHistory(emit)
+		return
+	}
 	maxLen := 3
 	if tier == "thorough" {
 		maxLen = 4
@@ -275,6 +280,10 @@ func gen(tier string, emit func(engine.Case) bool) {
 		if !emit(mk(fmt.Sprintf("k%d", i), []byte(e.src), "corpus:"+e.kind)) {
 			return
 		}
+	}
+	// (c) history family: every ordered pair of the designed items
+	if !genHistory(emit) {
+		return
 	}
 	seen := map[string]struct{}{}
 	for i, e := range ents {
